@@ -42,6 +42,8 @@ var c12Scns = []c12Scn{
 	{name: "resp qualified no-cache", side: "resp", dirs: []string{`no-cache="X-Secret"`, "max-age=100"}, dec: 0, status: 200, elapsed: 10, follow: "304", secret: true},
 	{name: "resp three directives", side: "resp", dirs: []string{"max-age=100", "no-cache", "stale-if-error=5"}, dec: 1, status: 200, elapsed: 10, follow: "304"},
 	{name: "304 no-cache", side: "resp", on304: true, dirs: []string{"no-cache", "max-age=3600"}, dec: 0, status: 200, elapsed: 10, otherCC: "", follow: "304"},
+	{name: "304 no-store", side: "resp", on304: true, dirs: []string{"no-store", "max-age=3600"}, dec: 0, status: 200, elapsed: 10, otherCC: "", follow: "304"},
+	{name: "resp qualified no-cache (two fields)", side: "resp", dirs: []string{`no-cache="X-Secret, Set-Cookie"`, "max-age=100"}, dec: 0, status: 200, elapsed: 10, follow: "304", secret: true},
 	{name: "304 max-age", side: "resp", on304: true, dirs: []string{"max-age=3600", "stale-if-error=1"}, dec: 0, status: 200, elapsed: 10, otherCC: "", follow: "304"},
 	{name: "req no-cache", side: "req", dirs: []string{"no-cache", "max-stale=5"}, dec: 0, status: 200, elapsed: 10, otherCC: "max-age=100", follow: "304"},
 	{name: "req no-store", side: "req", dirs: []string{"no-store", "max-stale=5"}, dec: 0, status: 200, elapsed: 10, otherCC: "max-age=100", follow: "200", twoGets: true},
@@ -339,6 +341,30 @@ func c12Rewrites(n int) []c12Rewrite {
 				}
 			}
 			return f, dec
+		}})
+	}
+	// a quoted argument that is itself a list (field names): empty members and whitespace inside it change nothing
+	for _, form := range []struct{ name, pre, sep, post string }{{"leading empty member", ",", ",", ""}, {"leading empty member with OWS", " , ", " , ", " "}, {"empty members everywhere", ",,", ",,", ",,"}} {
+		form := form
+		rs = append(rs, c12Rewrite{"listarg", "quoted list argument: " + form.name, func(f c12Form, dec int) (c12Form, int) {
+			g := f.clone()
+			for i, d := range g.dirs {
+				name, arg, has := strings.Cut(d, "=")
+				if !has || len(arg) < 2 || arg[0] != '"' || strings.ContainsAny(arg[1:len(arg)-1], `"\\`) || strings.Trim(arg[1:len(arg)-1], "ABCDEFGHIJKLMNOPQRSTUVWXYZabcdefghijklmnopqrstuvwxyz-, ") != "" {
+					continue
+				}
+				var ms []string
+				for _, m := range strings.Split(arg[1:len(arg)-1], ",") {
+					if m = strings.TrimSpace(m); m != "" {
+						ms = append(ms, m)
+					}
+				}
+				if len(ms) == 0 {
+					continue
+				}
+				g.dirs[i] = name + `="` + form.pre + strings.Join(ms, form.sep) + form.post + `"`
+			}
+			return g, dec
 		}})
 	}
 	// long lists: k unknown extension directives in front of (and, for one size, behind) everything else
